@@ -114,6 +114,19 @@ type WS struct {
 	// NonTargetOnlyPins: names pinned in the buf.lock of some NON-target module and in no
 	// target module's buf.lock (v1).
 	NonTargetOnlyPins map[string]bool
+	// Sel, when set, is a WORKSPACE-level selection (C01 sections E/F): BuildDisk hands the input
+	// directory and the --path / --exclude-path values to buftarget / bufworkspace as the user gave
+	// them (relative to the workspace root) instead of deriving them from Added[i].Paths/Excludes;
+	// which module receives what is then decided by bufworkspace.newModuleTargeting.
+	Sel *WsSel
+}
+
+// WsSel is a workspace-level selection: `buf build <Input> --path … --exclude-path …` run in the
+// workspace root.  All values are normalized and relative to the workspace root.
+type WsSel struct {
+	Input    string
+	Paths    []string
+	Excludes []string
 }
 
 var wktMsg = map[string]string{
@@ -1155,7 +1168,13 @@ func (ws *WS) BuildDisk(ctx context.Context, dir string) (*Built, error) {
 	if err != nil {
 		return nil, err
 	}
-	bt, err := buftarget.NewBucketTargeting(ctx, slogext.NopLogger, bucket, ".", targetPaths, excludePaths, buftarget.TerminateAtControllingWorkspace)
+	input := "."
+	if ws.Sel != nil {
+		input = ws.Sel.Input
+		targetPaths = append([]string(nil), ws.Sel.Paths...)
+		excludePaths = append([]string(nil), ws.Sel.Excludes...)
+	}
+	bt, err := buftarget.NewBucketTargeting(ctx, slogext.NopLogger, bucket, input, targetPaths, excludePaths, buftarget.TerminateAtControllingWorkspace)
 	if err != nil {
 		return nil, fmt.Errorf("bucket targeting: %w", err)
 	}
